@@ -119,9 +119,9 @@ Ltac ok_goal := unfold RP; first [solve [good_goal] | solve [good_hook] | idtac]
 Lemma RP_match_pats ps ts : RP (match_pats ps ts). Proof. unfold match_pats. destruct (peek_pats ps ts); exact I || reflexivity. Qed.
 Lemma RP_pop ts : RP (pop ts). Proof. destruct ts; simpl; [reflexivity|split; exact I]. Qed.
 Lemma RP_pop_src ts : RP (pop_src ts). Proof. destruct ts; simpl; [reflexivity|split; exact I]. Qed.
-Lemma RP_pop_children ts : RP (pop_children ts). Proof. destruct ts; simpl; [reflexivity|split; exact I]. Qed.
+Lemma RP_pop_children ts : RP (pop_children ts). Proof. destruct ts as [|t ts]; simpl; [reflexivity|]. destruct (is_group t); [split; exact I|reflexivity]. Qed.
 Lemma RP_peek_children ts : RP (peek_children ts). Proof. destruct ts; simpl; [reflexivity|exact I]. Qed.
-Lemma RP_pop_split s ts : RP (pop_split s ts). Proof. destruct ts; simpl; [reflexivity|split; exact I]. Qed.
+Lemma RP_pop_split s ts : RP (pop_split s ts). Proof. destruct ts as [|t ts]; simpl; [reflexivity|]. destruct (is_group t); [split; exact I|reflexivity]. Qed.
 Lemma RP_close ts : RP (close ts). Proof. destruct ts; simpl; [exact I|reflexivity]. Qed.
 Lemma RP_int_of s : RP (int_of s). Proof. unfold int_of. destruct (py_int s); [exact I|reflexivity]. Qed.
 Lemma RP_as_int s : RP (as_int s). Proof. unfold as_int. destruct (py_int s); [exact I|reflexivity]. Qed.
